@@ -1,3 +1,3 @@
 import YaegiVerif.Common.Loop
 import YaegiVerif.Driver.C01
-def main : IO Unit := YaegiVerif.runLoop "C01" YaegiVerif.Driver.C01.handle
+def main : IO Unit := YaegiVerif.runLoop "C01" YaegiVerif.Driver.C01.handleAll
